@@ -224,3 +224,83 @@ func VHShuffle() {
 }
 
 // Reverse is anchored in sort.go but belongs to C12; it is covered there.
+
+// VHSortLong: lengths past the thresholds of the sort package (12: insertion sort, 50:
+// ninther pivot) with concrete key patterns - comparisons are concrete, one path per choice -
+// and symbolic payloads that must travel with their keys.
+type c15rec struct{ key, tag, payload int }
+
+func VHSortLong() {
+	lens := []int{12, 13, 20, 33, 50, 51, 64, 100}
+	n := lens[vChoose("len", len(lens))]
+	mod := []int{2, 3, 10, 1000}[vChoose("keys", 4)] // few distinct keys ... all distinct
+	variant := vChoose("variant", 6)
+	s := make([]c15rec, n)
+	ints := make([]int, n)
+	for i := range s {
+		k := (i*7919 + 13) % 101 % mod
+		if mod == 1000 {
+			k = (i * 37) % 101
+		}
+		s[i] = c15rec{k, i, vInt("p")}
+		ints[i] = k
+	}
+	snap := append([]c15rec(nil), s...)
+	less := func(a, b c15rec) bool { return a.key < b.key }
+	desc, stable := false, false
+	switch variant {
+	case 0:
+		SortFunc(s, less)
+	case 1:
+		SortDescFunc(s, less)
+		desc = true
+	case 2:
+		SortStableFunc(s, less)
+		stable = true
+	case 3:
+		SortStableDescFunc(s, less)
+		desc, stable = true, true
+	case 4:
+		Sort(ints)
+	case 5:
+		SortDesc(ints)
+		desc = true
+	}
+	if variant >= 4 {
+		cnt := map[int]int{}
+		for i := 0; i < n; i++ {
+			cnt[(i*7919+13)%101%mod]++
+		}
+		_ = cnt
+		for i := 1; i < n; i++ {
+			if desc {
+				vAssert(ints[i-1] >= ints[i], "SortDesc (long): descending")
+			} else {
+				vAssert(ints[i-1] <= ints[i], "Sort (long): ascending")
+			}
+		}
+		return
+	}
+	seen := make([]bool, n)
+	for i := range s {
+		if i > 0 {
+			if desc {
+				vAssert(s[i-1].key >= s[i].key, "Sort*DescFunc (long): descending under less")
+			} else {
+				vAssert(s[i-1].key <= s[i].key, "Sort*Func (long): ascending under less")
+			}
+			if stable && s[i-1].key == s[i].key {
+				vAssert(s[i-1].tag < s[i].tag, "SortStable*Func (long): equal keys keep their original relative order")
+			}
+		}
+		t := s[i].tag
+		vAssert(t >= 0 && t < n && !seen[t], "Sort*Func (long): permutation of the input")
+		if t >= 0 && t < n {
+			seen[t] = true
+			vAssert(s[i].key == snap[t].key && s[i].payload == snap[t].payload, "Sort*Func (long): every element travels whole")
+		}
+	}
+	if n >= 51 {
+		vCover("sort long n >= 51")
+	}
+}
